@@ -1,0 +1,70 @@
+//go:build verif
+
+package jsonapi
+
+// Contracts and lemma harnesses for relationships (C16). Checked by /verif/govc.
+
+//@ func Rel.Invert
+//@ props C16 C14
+//@ flag pure
+//@ requires r != nil
+//@ ensures from-type: result.FromType == r.ToType
+//@ ensures from-name: result.FromName == r.ToName
+//@ ensures to-one: result.ToOne == r.FromOne
+//@ ensures to-type: result.ToType == r.FromType
+//@ ensures to-name: result.ToName == r.FromName
+//@ ensures from-one: result.FromOne == r.ToOne
+
+//@ spec relBefore(r Rel) = r.FromType < r.ToType || (r.FromType == r.ToType && r.FromName < r.ToName)
+//@ spec relInv(r Rel) = Rel.Invert(r)
+
+//@ func Rel.Normalize
+//@ props C16 C14
+//@ flag pure
+//@ requires r != nil
+//@ ensures one-way: r.ToName == "" ==> result == *r
+//@ ensures keeps: r.ToName != "" && relBefore(*r) ==> result == *r
+//@ ensures inverts: r.ToName != "" && !relBefore(*r) && !(r.FromType == r.ToType && r.FromName == r.ToName) ==> result == relInv(*r)
+//@ ensures either: result == *r || result == relInv(*r)
+
+// rel_dom is the domain of the property's quantifier: non-empty type names and
+// name; a relationship that is its own inverse has equal cardinalities.
+//@ spec relDom(r Rel) = r.FromType != "" && r.ToType != "" && r.FromName != "" && (r.FromType == r.ToType && r.FromName == r.ToName ==> r.ToOne == r.FromOne)
+
+//@ lemma lemma_C16_invert_involution
+//@ props C16
+func lemma_C16_invert_involution(r Rel) bool {
+	i := r.Invert()
+	return i.Invert() == r
+}
+
+//@ lemma lemma_C16_normalize_either
+//@ props C16
+//@ requires relDom(r)
+func lemma_C16_normalize_either(r Rel) bool {
+	n := r.Normalize()
+	return n == r || n == r.Invert()
+}
+
+//@ lemma lemma_C16_normalize_oneway
+//@ props C16
+//@ requires relDom(r) && r.ToName == ""
+func lemma_C16_normalize_oneway(r Rel) bool {
+	return r.Normalize() == r
+}
+
+//@ lemma lemma_C16_normalize_idempotent
+//@ props C16
+//@ requires relDom(r)
+func lemma_C16_normalize_idempotent(r Rel) bool {
+	n := r.Normalize()
+	return n.Normalize() == n
+}
+
+//@ lemma lemma_C16_normalize_agrees_with_inverse
+//@ props C16
+//@ requires relDom(r) && r.ToName != ""
+func lemma_C16_normalize_agrees_with_inverse(r Rel) bool {
+	i := r.Invert()
+	return r.Normalize() == i.Normalize()
+}
